@@ -178,7 +178,58 @@ def plan_C12(seed, tier):
             "decisions": {}, "neutral": []}
 
 
-PLANNERS = {"C17": plan_C17, "C12": plan_C12}
+# --------------------------------------------------------------------------------------------
+# C13
+# --------------------------------------------------------------------------------------------
+
+def plan_C13(seed, tier):
+    nworkers = pick(seed, "nworkers", [2, 3, 3, 4, 5, 6])
+    gateways = ["", "gw1", "gw2"][:pick(seed, "ngw", [1, 2, 2, 3])]
+    workers = {}
+    for i in range(nworkers):
+        gw = pick(seed, f"gw{i}", gateways)
+        host = pick(seed, f"host{i}", ["h1", "h2", "h3"][:pick(seed, "nhosts", [1, 2, 3, 3])])
+        workers[f"net{i + 1}"] = {"gateway": gw, "host": host}
+    names = sorted(workers)
+    states = ["install", "customize", "s1", "s2"]
+    initial = []
+    hosts = sorted({(d["gateway"], d["host"]) for d in workers.values()})
+    for h in hosts:
+        for kind in ("shared", "swarm"):
+            for st in states + ["root"]:
+                if pick(seed, f"init/{h}/{kind}/{st}", [0, 0, 1]):
+                    initial.append({"pool": [kind, list(h)], "state": st})
+    steps = []
+    for i in range(pick(seed, "nsteps", [2, 5, 10, 20, 30])):
+        op = pick(seed, f"op{i}", ["show", "show", "get", "get", "get", "set", "set", "unset", "unset",
+                                   "set_root", "unset_root", "check_root", "foreign_set", "lost_write"])
+        st = pick(seed, f"st{i}", states)
+        if op in ("foreign_set", "lost_write"):
+            h = pick(seed, f"fh{i}", hosts)
+            steps.append({"op": op, "pool": [pick(seed, f"fk{i}", ["shared", "swarm"]), list(h)], "state": st})
+            continue
+        me = pick(seed, f"me{i}", names)
+        if op in ("set_root", "unset_root", "check_root"):
+            scope = pick(seed, f"rscope{i}", ["own", "shared", "own", "shared", "own shared", "swarm", "own swarm cluster shared"])
+            steps.append({"op": op, "worker": me, "scope": scope, "sources": [], "state": "root"})
+            continue
+        scope = " ".join(s for s in ["own", "swarm", "cluster", "shared"] if pick(seed, f"sc{i}/{s}", [0, 1, 1]))
+        candidates = [":" + SHARED_PATH] + [f"{w}:{SWARM_PATH}" for w in names] + \
+            [f"{w}:{SHARED_PATH}" for w in names if pick(seed, f"rsh{i}/{w}", [0, 0, 1])]
+        chosen = [c for c in candidates if pick(seed, f"src{i}/{c}", [0, 1, 1])]
+        # a seeded permutation
+        chosen.sort(key=lambda c: H(seed, "perm", i, c))
+        step = {"op": op, "worker": me, "scope": scope, "sources": chosen, "state": st}
+        if op == "get" and pick(seed, f"inv{i}", [0, 0, 1]):
+            step["invalid"] = [st]
+        steps.append(step)
+    return {"seed": seed, "property": "C13", "engine": "statesim", "workers": workers, "initial": initial, "steps": steps,
+            "decisions": {}, "neutral": []}
+
+
+SHARED_PATH = "/mnt/shared"
+SWARM_PATH = "/mnt/swarm"
+PLANNERS = {"C17": plan_C17, "C12": plan_C12, "C13": plan_C13}
 BUDGETS = {"C17": {"quick": (3000, 60), "thorough": (200000, 600)},
            "C12": {"quick": (3000, 60), "thorough": (200000, 600)},
            "C13": {"quick": (3000, 60), "thorough": (200000, 600)}}
@@ -193,6 +244,10 @@ RULES["C12"] = ("histories of check/get/set/unset/push/pop calls on 1-3 vms with
                "backend error injected at the k-th backend call of some steps; every step is compared with the README policy table and "
                "a set-of-names store model (outcome class, resulting store, no call for unaddressed objects). Distinct = distinct final "
                "store; non-trivial = a history with a state-changing operation or a non-ok outcome.")
+RULES["C13"] = ("histories of show/get/set/unset/root operations by 2-6 workers placed on 1-3 gateways x 1-3 hosts, each with a random subset of "
+               "pool_scope and a random subset/permutation of sources (shared path, every worker's swarm and shared path), over pools whose "
+               "contents evolve (other workers' sets, lost writes, invalid caches); the contact log of the fake transport is compared with an "
+               "independently written scope/proximity model. Distinct = distinct final placement of states; non-trivial = a remote source was contacted.")
 ASSUMPTIONS = {
     "C17": ["QemuImg is replaced by a fake that prints qemu-img snapshot listings; external states are empty files in a scratch directory",
             "vm-level set/unset are modelled as their per-image file operations (the real _set/_unset need a running vm)"],
@@ -200,18 +255,25 @@ ASSUMPTIONS = {
 ASSUMPTIONS["C12"] = ["an in-memory backend registered in ss.BACKENDS stands for all real backends; unset_root keeps saved states (as external state files do)",
                      "the experimental check_mode (root prerequisite) is modelled as coded; the strict 'no alteration on abort' reading holds in the check_mode=rr family",
                      "where the documentation is silent (objects processed before an aborting one, state of an object after an injected backend error) both outcomes are accepted"]
+ASSUMPTIONS["C13"] = ["workers on the same gateway and host reach the same directories; a state is a name in a pool",
+                     "'closest' is the documented order own < shared (same host) < swarm (same gateway) < cluster (other gateway); ties are free",
+                     "there is no scheduling inside a single pool operation; the simulated part is the multi-party store and its history"]
 REAL = {
     "C17": ["qcow2.QCOW2VTBackend.show", "qcow2.QCOW2Backend.show (QEMU_ON/OFF_STATES_REGEX)", "ramfile.RamfileBackend._show",
             "qcow2.QCOW2ExtBackend.show/_show", "pool.SourcedStateBackend.show"],
 }
 REAL["C12"] = ["avocado_i2n.states.setup: check_states/get_states/set_states/unset_states/push_states/pop_states, _parametric_object_iteration, _state_check_chain",
               "virttest Params.object_params"]
+REAL["C13"] = ["pool.SourcedStateBackend.show/get/set/unset/get_sources/get_source_scope", "pool.RootSourcedStateBackend.check_root/set_root/unset_root"]
 STUBS = {
     "C17": ["virttest QemuImg (fake snapshot listing)", "disk (scratch directory + in-memory internal snapshot table)"],
 }
 
 
 STUBS["C12"] = ["state backends (one in-memory backend with a call log and an injectable error)", "test environment / vm objects"]
+
+
+STUBS["C13"] = ["local backend (_show/_get/_set/_unset/_check_root/...: in-memory cache per host)", "transport (recording fake over the simulated pools)"]
 
 
 def nontrivial(prop, plan, result):
